@@ -310,7 +310,7 @@ class Gen:
         return out
 
     # ------------------------------------------------------------------ constraint sets
-    def cset(self, ops, coords, sph, q0, allow_loops=True, allow_contacts=True, max_rows=None):
+    def cset(self, ops, coords, sph, q0, allow_loops=True, allow_contacts=True, max_rows=None, clean_loops=False):
         """returns (lines, nrows, has_loop).  Contacts: 1-3 mutually orthogonal normals per point.  Loops: frames made
         coincident at q0 (loopauto), any subset of the six axes, offset along unconstrained translational axes."""
         r = self.r; lines = []; rows = 0
@@ -335,7 +335,8 @@ class Gen:
                 E = self.rot(); rp = [self.dy(-0.5, 0.5) for _ in range(3)]
                 k = min(r.randint(1, 6), max_rows - rows)
                 axes_idx = r.sample(range(6), k)
-                if max_rows - rows >= 3 and r.random() < 0.45:
+                if clean_loops and max_rows - rows < 3: continue
+                if max_rows - rows >= 3 and (clean_loops or r.random() < 0.45):
                     # all three translations locked, no rotational row: outside the open findings D8a / D8b
                     k = 3; axes_idx = [3, 4, 5]; self.count("calls", "loop_translation_lock")
                 off = [Fr(0)] * 3
@@ -377,6 +378,33 @@ class Gen:
                 out.append("csolver %d" % r.randint(1, 3))
                 out.append("imp %s %s %s %s" % (r.choice(["direct", "range", "null"]), Q, QD, self.vec(vp)))
             elif rt == "scramble": out.append("scramble %d" % r.randint(0, 9))
+        return out
+    def case_C11(self, idx):
+        """constrained inverse dynamics with an actuation map: exact operator with as many unactuated coordinates as
+        constraint rows, relaxed operator with any map, full-actuation test with any map"""
+        r = self.r
+        lines, ops, coords, sph = self._model_nonempty(nmin=2, nmax=6, kinds=[k for k in self.JOINTS if k not in ("crztx",)] + ["float", "float"])
+        q0, _, _, _ = self.state(coords, sph)
+        n = len(coords)
+        cl, rows, has_loop = self.cset(ops, coords, sph, q0, clean_loops=True, max_rows=max(1, min(6, n - 1)))
+        out = ["case x"] + lines + cl
+        if rows == 0: out.append("contact 0 0.0 0.0 0.0 0.0 0.0 1.0"); rows = 1
+        Q = self.vec(q0)
+        for _ in range(5):
+            rt = r.choice(["exact", "exact", "relaxed", "fullact"]); self.count("calls", "idc_" + rt if rt != "fullact" else rt)
+            _, qd, qdd, tau = self.state(coords, sph)
+            if rt == "exact": nu = min(rows, n)
+            else: nu = r.randint(0, n)
+            un = set(r.sample(range(n), nu))
+            if rt == "exact" and r.random() < 0.6:
+                # prefer the first coordinates (floating-base style under-actuation)
+                un = set(range(nu))
+            act = [0 if i in un else 1 for i in range(n)]
+            out.append("actuation %d %s" % (n, " ".join(str(a) for a in act)))
+            out.append("csolver %d" % r.randint(1, 3))
+            if rt == "fullact": out.append("fullact %s %s F 0" % (Q, self.vec(qd)))
+            else: out.append("idc %s feas %s %s %s %s" % (rt, Q, self.vec(qd), self.vec(qdd), self.fext(ops) if r.random() < 0.4 else "F 0"))
+            if r.random() < 0.2: out.append("scramble %d" % r.randint(0, 9))
         return out
     def case_C09(self, idx): return self._cons_case(["cjac", "cerr", "cverr", "csys", "scramble"], ncalls=7)
     def case_C08(self, idx): return self._cons_case(["fdc", "fdc", "csys", "scramble"], ncalls=6)
